@@ -24,18 +24,18 @@ CHECKS = {
     "C09": dict(level=MC, ref="5/C09",
                 text="TLC validates every recorded host call of probed runs against the abstract protocol "
                      "specification InkHostAbs (rule Rejected: error result, no callbacks, observation including the "
-                     "save document unchanged, all later operations as in the base run); the mechanism model InkHost "
-                     "is model-checked against the same rule. Bounded by the generated programs and histories.",
+                     "save document unchanged, all later operations as in the base run). "
+                     "Bounded by the generated programs and histories.",
                 note="base runs of the same build define the reference system; observation projection of the harness "
                      "(text, tags, choices, errors, warnings, path, globals, visit counts, key-sorted save document)",
-                technique="TLA+ trace validation (InkHostTrace/InkHostAbs) of invalid-call injection + TLC model checking of InkHost"),
+                technique="TLA+ trace validation (InkHostTrace/InkHostAbs) of invalid-call injection"),
     "C02": dict(level=MC, ref="5/C02",
                 text="TLC validates recorded runs against InkHostAbs rules SaveA/LoadA: a load into a freshly constructed "
                      "twin jumps to the saved position of the reference system built from base runs; every explored "
                      "continuation is then compared observation by observation, and the save document written after the "
                      "load must equal the loaded one. Bounded by generated and corpus programs, save points, continuations.",
                 note="base runs of the same build; observation projection of the harness; twin built from the same document",
-                technique="TLA+ trace validation (InkHostTrace/InkHostAbs) of save/load histories + TLC model checking of InkHost"),
+                technique="TLA+ trace validation (InkHostTrace/InkHostAbs) of save/load histories"),
     "C16": dict(level=MC, ref="5/C16",
                 text="TLC validates recorded runs against InkHostAbs rule EvalA: a host evaluation of a pure function does "
                      "not move the abstract position; the observation (function's own visit/turn entries masked) is "
@@ -56,7 +56,7 @@ CHECKS = {
                      "slices do not move the abstract position, guarded calls are Rejected, the completing slice must "
                      "give the unsliced observation (incl. save document), result and concatenated callback log.",
                 note="virtual clock hook (steps instead of milliseconds); base runs of the same build",
-                technique="TLA+ trace validation (InkHostTrace/InkHostAbs) of pause schedules + TLC model checking of InkHost"),
+                technique="TLA+ trace validation (InkHostTrace/InkHostAbs) of pause schedules"),
     "C11": dict(level=MC, ref="5/C11",
                 text="TLC evaluates the rules ContNotifyRule/SetVarNotifyRule (InkHostRules) on every recorded call: the set "
                      "of registered (observer, variable) pairs is tracked by the abstract state, globals are polled before "
